@@ -172,8 +172,7 @@ theorem run_rowhigh_orient (rnd : Rat → Rat) (p : Params) (R : List Row) (H : 
     · rename_i he
       have : (computeCellOrder rnd p.ow p.oy p.oh cells).length = 0 := by
         simpa [List.isEmpty_iff] using he
-      rw [hord.length_eq] at this
-      simp at this
+      rw [hord.length_eq, List.length_range] at this
       omega
     · simp at h1
   | cons r0 rs =>
@@ -237,8 +236,7 @@ theorem run_rowhigh_orient (rnd : Rat → Rat) (p : Params) (R : List Row) (H : 
           obtain ⟨j', hj', rfl⟩ := List.mem_map.mp hc
           exact (hh _ (cellAt_mem cells j' (hlt j' hj'))).2
         obtain ⟨k, rk, e1, e2, e3, e4, e5, e6⟩ := abacusRun_written (sortRows R) _ ps hw' hrun j (by rw [hq]; exact s3)
-        rw [hq, hcj] at e2 e3 e4 e5
-        rw [hcj] at e5 e6
+        simp only [hq, hcj] at e2 e3 e4 e5 e6
         have hperm2 : (sortRows (sortRows R)).Perm R := (sortRows_perm _).trans hperm1
         have hrk : rk ∈ R := hperm2.mem_iff.mp (List.mem_of_getElem? e1)
         have erk : rowAt (sortRows (sortRows R)) k = rk := by
@@ -259,5 +257,117 @@ theorem run_rowhigh_orient (rnd : Rat → Rat) (p : Params) (R : List Row) (H : 
         by_cases hu : cellOrientationInRow (cellAt cells m).pol r.orient = Orient.UNKNOWN
         · left; exact hu
         · right; rw [if_neg hu]
+
+/-! ### circuit level -/
+
+/-- every movable cell of the exported circuit is a movable cell of the input with the position and
+orientation of its status -/
+theorem export_movable (c : Circuit) (P : List Pos) (hlen : P.length = (c.cells.filter fun cl => !cl.fixed).length)
+    (cl' : Cell) (hmem : cl' ∈ exportCells c.cells P) (hf : cl'.fixed = false) :
+    ∃ m cl, (c.cells.filter fun cl => !cl.fixed)[m]? = some cl ∧ m < P.length ∧ cl' = updCell cl (posAt P m) := by
+  have hmemF : cl' ∈ (exportCells c.cells P).filter fun cl => !cl.fixed := by
+    rw [List.mem_filter]; exact ⟨hmem, by simp [hf]⟩
+  obtain ⟨m, hm⟩ := List.mem_iff_getElem?.mp hmemF
+  rw [exportCells_filter c.cells P hlen, List.getElem?_zipWith] at hm
+  cases hcm : (c.cells.filter fun cl => !cl.fixed)[m]? with
+  | none => rw [hcm] at hm; simp at hm
+  | some cl =>
+    cases hpm : P[m]? with
+    | none => rw [hcm, hpm] at hm; simp at hm
+    | some q =>
+      rw [hcm, hpm] at hm
+      simp only [Option.some.injEq] at hm
+      refine ⟨m, cl, hcm, (List.getElem?_eq_some_iff.mp hpm).1, ?_⟩
+      rw [posAt_of_getElem? _ _ _ hpm]
+      exact hm.symm
+
+/-- **Legalizing twice = legalizing once**, for every single-row design of the domain and every key
+rounding that keeps the left-to-right order on the first result. -/
+theorem legalizeWith_twice (rnd : Rat → Rat) (p : Params) (c c' : Circuit) (hd : DomL c) (hs : SingleRow c)
+    (h : legalizeWith rnd p c = .ok c') (hk : KeyOrder rnd p (movable c')) :
+    legalizeWith rnd p c' = .ok c' := by
+  have hlegal : LegalL c' := legalizeWith_legal rnd p c c' hd h
+  obtain ⟨hp, b1, b2, h1, h2, hall, rfl⟩ := legalizeWith_ok rnd p c _ h
+  obtain ⟨⟨H, hpos, hH, hcl⟩, hdis, hx, hturn⟩ := domL_spelled c hd
+  have hgood := computeRows_good c H hH hx
+  have hdisj := computeRows_disj c H hpos hH hx hdis
+  have hH0 : (Circuit.rowHeight c).getD 0 = H := by rw [hH]; rfl
+  have hRc : RowsOK H c.computeRows := by rw [← hH0]; exact dom_rowsOK c hd
+  have hL : CellsOK H (movable c) := by rw [← hH0]; exact dom_cellsOK c hd
+  obtain ⟨hlen, hcleg, _⟩ := run_legal H hpos c.computeRows hRc (movable c) hL _ b1 b2 h1 h2
+  have hmlen : (movable c).length = (c.cells.filter fun cl => !cl.fixed).length := by
+    rw [movable_eq]; simp
+  have hph : ∀ cl ∈ c.cells, cl.fixed = false → cl.placedHeight = H := by
+    intro cl hcl' hf
+    have := hs cl hcl' hf
+    rw [hH] at this
+    exact (Option.some.inj this).symm
+  have hhm : ∀ lc ∈ movable c, lc.h = H ∧ 0 < lc.w := by
+    intro lc hlc
+    rw [movable_eq] at hlc
+    obtain ⟨cl, hcl', rfl⟩ := List.mem_map.mp hlc
+    obtain ⟨hmem, hf⟩ := List.mem_filter.mp hcl'
+    have hf' : cl.fixed = false := by simpa using hf
+    exact ⟨hph cl hmem hf', (hcl cl hmem hf').1⟩
+  -- every movable cell of the result
+  have key : ∀ cl' ∈ (exportPlacement b2 c).cells, cl'.fixed = false →
+      ∃ m cl, m < (movable c).length ∧ cl ∈ c.cells ∧ cl.fixed = false ∧ cellAt (movable c) m = toLCell cl ∧
+        cl'.x = (posAt b2.pos m).x ∧ cl'.y = (posAt b2.pos m).y ∧ cl'.orient = (posAt b2.pos m).orient ∧
+        cl'.pol = cl.pol ∧ cl'.placedWidth = cl.placedWidth ∧ cl'.placedHeight = cl.placedHeight := by
+    intro cl' hmem hf
+    obtain ⟨m, cl, hcm, hmP, rfl⟩ := export_movable c b2.pos (by rw [hlen, hmlen]) cl' hmem hf
+    have hpl : (posAt b2.pos m).placed = true := by
+      rw [List.all_eq_true] at hall
+      rw [posAt_eq_getElem _ m hmP]
+      exact hall _ (List.getElem_mem hmP)
+    have hcell : cellAt (movable c) m = toLCell cl := by
+      apply cellAt_of_getElem?
+      rw [movable_eq, List.getElem?_map, hcm]
+      rfl
+    have hturn' := (hcleg m hpl).2.1
+    rw [hcell] at hturn'
+    simp only [toLCell] at hturn'
+    obtain ⟨hclm, hclf⟩ := List.mem_filter.mp (List.mem_of_getElem? hcm)
+    refine ⟨m, cl, by rw [← hlen]; exact hmP, hclm, by simpa using hclf, hcell, ?_, ?_, ?_, ?_, ?_, ?_⟩ <;>
+      simp [updCell, hpl, Cell.placedWidth, Cell.placedHeight, hturn']
+  have hdc : DomC (exportPlacement b2 c) := by
+    refine ⟨⟨H, hpos, hH, ?_⟩, hdis, hx, ?_⟩
+    · intro cl' hmem hf
+      obtain ⟨m, cl, _, q1, q2, _, _, _, _, _, q9, q10⟩ := key cl' hmem hf
+      rw [q9, q10]
+      exact hcl cl q1 q2
+    · intro cl' hmem hf hpol
+      obtain ⟨m, cl, hm, q1, q2, q3, _, _, q7, q8, _, _⟩ := key cl' hmem hf
+      have hpl : (posAt b2.pos m).placed = true := by
+        rw [List.all_eq_true] at hall
+        have hmP : m < b2.pos.length := by rw [hlen]; exact hm
+        rw [posAt_eq_getElem _ m hmP]
+        exact hall _ (List.getElem_mem hmP)
+      have hturn' := (hcleg m hpl).2.1
+      rw [q3] at hturn'
+      simp only [toLCell] at hturn'
+      rw [q7, hturn']
+      exact hturn cl q1 q2 (by rw [← q8]; exact hpol)
+  have hsr : SingleRow (exportPlacement b2 c) := by
+    intro cl' hmem hf
+    obtain ⟨m, cl, _, q1, q2, _, _, _, _, _, _, q10⟩ := key cl' hmem hf
+    rw [q10]
+    exact hs cl q1 q2
+  have hol : OrientLegal (exportPlacement b2 c) := by
+    intro cl' hmem hf
+    obtain ⟨m, cl, hm, q1, q2, q3, q4, q5, q6, q7, q8, _⟩ := key cl' hmem hf
+    obtain ⟨o1, o2⟩ := run_rowhigh_orient rnd p c.computeRows H (movable c) b1 b2 hgood hdisj hhm h1 h2 hall m hm
+    refine ⟨by rw [q6]; exact o1, ?_⟩
+    intro r hr y1 x1 x2
+    rw [export_computeRows] at hr
+    have := o2 r hr (by rw [y1, q5]) (by rw [← q4]; exact x1) (by
+      rw [q3, ← q4]
+      simp only [toLCell]
+      rw [← q8]; exact x2)
+    rw [q3] at this
+    simp only [toLCell] at this
+    rw [q7, q6]
+    exact this
+  exact legalizeWith_fixed rnd p _ hp hdc hsr hlegal hol hk
 
 end ColoVerif.Legalize
